@@ -160,6 +160,11 @@ func (pc *PodCache) onEvent(old, pod *v1.Pod, ev model.Event) error {
 	}
 
 	key := config.NamespacedName(pod)
+	if ev != model.EventDelete {
+		// Endpoints are built for every pod the informer knows, ready or not. Those seen before their pod
+		// must not wait until the pod becomes ready.
+		pc.resyncEndpoints(ip)
+	}
 	switch ev {
 	case model.EventAdd:
 		if shouldPodBeInEndpoints(pod) && IsPodReady(pod) {
@@ -300,6 +305,19 @@ func (pc *PodCache) queueEndpointEventOnPodArrival(key types.NamespacedName, ip 
 	defer pc.Unlock()
 	sets.InsertOrNew(pc.needResync, ip, key)
 	endpointsPendingPodUpdate.Record(float64(len(pc.needResync)))
+}
+
+// resyncEndpoints queues the endpoint events that were waiting for a pod with this IP.
+func (pc *PodCache) resyncEndpoints(ip string) {
+	pc.Lock()
+	defer pc.Unlock()
+	if endpointsToUpdate, f := pc.needResync[ip]; f {
+		delete(pc.needResync, ip)
+		for epKey := range endpointsToUpdate {
+			pc.queueEndpointEvent(epKey)
+		}
+		endpointsPendingPodUpdate.Record(float64(len(pc.needResync)))
+	}
 }
 
 // endpointDeleted cleans up endpoint from resync endpoint list.
